@@ -1,14 +1,376 @@
-import OVM.Status.Model
+import OVM.Status.Lemmas
 /-
-  C04 (status part) — placeholder while the lemmas are being built.
+  C04 (status part) — `StatusAttrib::garbage_collection`: status-marked deletion, the
+  `_preserveManifoldness` pass, remapping of the tracked handles.
+  Model: `OVM/Status/Model.lean` (`statusGC`, mirrors StatusAttribT_impl.hh:45-137 on top of the
+  kernel model); specification: `OVM/Status/Spec.lean`; lemmas: `OVM/Status/Lemmas.lean`.
+
+  Proved here, for every state with consistent array lengths (`LenInv`, which C03 proves for every
+  history), every set of marks, both values of the manifoldness flag, every deletion mode and
+  bottom-up configuration, every list of tracked handles:
+  * index algebra (no hypothesis at all): the `new_*[old_*[h]] = h` loop applied to an index column
+    that went through a sequence of single deletions yields exactly the composition of the
+    per-deletion index maps, without any out-of-range write; that composition is injective on the
+    survivors, onto the new slots, and every column that went through the same deletions is
+    carried along it; half-entity handles follow their parents side-preservingly;
+  * `collect_garbage` (all four sweeps, fast or not) changes the six property storages by one such
+    sequence per entity kind, every operation addressing an existing slot, and the entity counts
+    follow; nothing is pending afterwards;
+  * the mark phase (marked deletions, manifoldness pass) runs entirely in deferred mode: no
+    property value and no entity slot moves;
+  * hence (`tracked_*`): there is one renumbering `ρ` per kind — injective on survivors, onto the
+    slots of the result — such that *every* property column (identity tokens, status bits, user
+    data) of a surviving entity is found at `ρ` of its old slot, and every tracked handle `h` comes
+    back as `ρ h`, or as the invalid handle exactly when `ρ h` is undefined (the slot was erased
+    by one of the single deletions); an invalid handle stays invalid; halfedge / halfface handles
+    keep their side and follow the edge / face renumbering;
+  * the specification's manifoldness clause is exact and stable (`Spec` lemmas).
+  NOT proved (evaluated on every call of the correspondence run instead, see `FullStatement`):
+  that the set of erased slots is exactly the specification's `dead*` set (that needs the cache
+  invariant of C01 across the deferred deletions), and the commutation of the *definitions*
+  with `ρ` (that is the open rung of C04 for `collect_garbage` itself).
 -/
 namespace OVM.Props.C04Status
 open OVM OVM.Kernel OVM.Status
 
-/-- the overload without handle containers is the tracking overload with empty containers -/
+/-! ### index algebra -/
+
+/-- the tracked-handle table built by the C++ is the composition of the per-deletion index maps,
+    and the scatter loop writes only inside the table -/
+theorem remap_table_is_composition (ops : List IdxOp) (n : Nat) (h : okOps ops n) :
+    scatter n ((runOps ops (List.range n)).map Int.ofNat) = ((List.range n).map (fwdOps ops), false) :=
+  scatter_runOps ops n h
+
+theorem composition_append (a b : List IdxOp) (i : Nat) : fwdOps (a ++ b) i = (fwdOps a i).bind (fwdOps b) :=
+  fwdOps_append a b i
+
+theorem composition_injective_on_survivors (ops : List IdxOp) (n i i' j : Nat) (h : okOps ops n) (hi : i < n) (hi' : i' < n)
+    (hf : fwdOps ops i = some j) (hf' : fwdOps ops i' = some j) : i = i' :=
+  fwdOps_injective ops n i i' j h hi hi' hf hf'
+
+theorem composition_onto_new_slots (ops : List IdxOp) (n j : Nat) (h : okOps ops n) (hj : j < lenOps ops n) :
+    ∃ i, i < n ∧ fwdOps ops i = some j :=
+  ⟨preOps ops j, preOps_lt ops n j h hj, fwdOps_preOps ops n j h hj⟩
+
+theorem survivors_land_in_range (ops : List IdxOp) (n i j : Nat) (h : okOps ops n) (hi : i < n) (hf : fwdOps ops i = some j) :
+    j < lenOps ops n :=
+  (preOps_fwdOps ops n i j h hi hf).1
+
+theorem columns_carried_along_composition {α} (ops : List IdxOp) (l : List α) (h : okOps ops l.length) (i j : Nat)
+    (hi : i < l.length) (hf : fwdOps ops i = some j) : (runOps ops l)[j]? = l[i]? :=
+  runOps_transport ops l h i j hi hf
+
+theorem half_handles_keep_their_side (ops : List IdxOp) (i s : Nat) (hs : s ≤ 1) :
+    fwdOps (halfOps ops) (2 * i + s) = (fwdOps ops i).map (fun m => 2 * m + s) :=
+  halfOps_fwd ops i s hs
+
+example : fwdOps [IdxOp.swap 1 3, IdxOp.erase 3, IdxOp.erase 0] 3 = some 0 ∧
+          fwdOps [IdxOp.swap 1 3, IdxOp.erase 3, IdxOp.erase 0] 1 = none ∧
+          runOps [IdxOp.swap 1 3, IdxOp.erase 3, IdxOp.erase 0] [10, 11, 12, 13] = [13, 12] ∧
+          okOps [IdxOp.swap 1 3, IdxOp.erase 3, IdxOp.erase 0] 4 := by
+  refine ⟨by decide, by decide, by decide, ?_⟩
+  simp [okOps, IdxOp.ok, IdxOp.len]
+
+/-! ### the kernel's collection and the mark phase -/
+
+theorem collectGarbage_moves_columns_uniformly (k : Kernel) (hi : LenInv k) :
+    ∃ L : Log, k.collectGarbage.props = L.apply k.props ∧
+      okOps L.v k.nV ∧ okOps L.e k.nE ∧ okOps L.f k.nF ∧ okOps L.c k.nC ∧
+      k.collectGarbage.nV = lenOps L.v k.nV ∧ k.collectGarbage.nE = lenOps L.e k.nE ∧
+      k.collectGarbage.nF = lenOps L.f k.nF ∧ k.collectGarbage.nC = lenOps L.c k.nC := by
+  obtain ⟨L, t⟩ := collectGarbage_trans k hi
+  exact ⟨L, t.props, t.okV, t.okE, t.okF, t.okC, t.nV, t.nE, t.nF, t.nC⟩
+
+theorem nothing_pending_after_collection (k : Kernel) (hd : k.deferred = true) :
+    k.collectGarbage.needsGC = false ∧ k.collectGarbage.deferred = true :=
+  collectGarbage_clean k hd
+
+/-- marked deletions and the manifoldness pass only set flags and unlink caches -/
+theorem markPhase_moves_nothing (k : Kernel) (man : Bool) (hi : LenInv k) :
+    (markPhase k man).props = k.props ∧ (markPhase k man).nV = k.nV ∧ (markPhase k man).deferred = true ∧
+    LenInv (markPhase k man) := by
+  have q := markPhase_Q k man hi
+  exact ⟨q.props, q.nV, q.dfr, q.len⟩
+
+/-- the overload without handle containers is the tracking overload with empty containers:
+    mark phase, `collect_garbage`, restore the deferred flag -/
 theorem statusGCPlain_eq (k : Kernel) (man : Bool) :
     statusGCPlain k man = ((markPhase k man).collectGarbage).enableDeferred k.deferred := by
   unfold statusGCPlain statusGC
   simp [Tracked.isEmpty]
+
+/-! ### tracked handles -/
+
+/-- one entity kind: `n` old slots, the single deletions `ops`, the columns `cs` of that kind -/
+theorem kind_facts (ops : List IdxOp) (n : Nat) (ok : okOps ops n) (cs : List Col) (hlen : ColsLen cs n) (tt : List Int) :
+    (∀ i i' j, i < n → i' < n → fwdOps ops i = some j → fwdOps ops i' = some j → i = i') ∧
+    (∀ j, j < lenOps ops n → ∃ i, i < n ∧ fwdOps ops i = some j) ∧
+    (∀ c ∈ cs, ∀ i j, i < n → fwdOps ops i = some j → (Col.runOps ops c).vals[j]? = c.vals[i]?) ∧
+    tt.map (remapFn ((List.range n).map (fwdOps ops))) =
+      tt.map (fun h => if h < 0 then h else if h.toNat ≥ n then h else Spec.optInt (fwdOps ops h.toNat)) := by
+  refine ⟨fun i i' j hi hi' a b => fwdOps_injective ops n i i' j ok hi hi' a b,
+          fun j hj => ⟨preOps ops j, preOps_lt ops n j ok hj, fwdOps_preOps ops n j ok hj⟩, ?_, ?_⟩
+  · intro c hc i j hi hf
+    have hl := hlen c hc
+    exact runOps_transport ops c.vals (by rw [hl]; exact ok) i j (by rw [hl]; exact hi) hf
+  · apply List.map_congr_left
+    intro h _
+    unfold remapFn
+    by_cases h1 : h < 0
+    · simp [h1]
+    · by_cases h2 : h.toNat ≥ n
+      · simp [h1, h2]
+      · have h3 : h.toNat < n := by omega
+        simp [h1, h2, List.getD, List.getElem?_range h3]
+
+/-- **Vertices.**  There is a renumbering `ρ` of the vertices of `k` — injective on the survivors,
+    onto the vertex slots of the result — along which every vertex property column is carried and
+    which every tracked vertex handle follows; a handle comes back invalid exactly when `ρ` is
+    undefined there (slot erased) or it was invalid. -/
+theorem tracked_vertex_handles (k : Kernel) (man : Bool) (t : Tracked) (hne : t.isEmpty = false)
+    (hi : LenInv k) (hfr : Fresh k) :
+    ∃ ρ : Nat → Option Nat,
+      (∀ i i' j, i < k.nV → i' < k.nV → ρ i = some j → ρ i' = some j → i = i') ∧
+      (∀ j, j < (statusGC k man t).k.nV → ∃ i, i < k.nV ∧ ρ i = some j) ∧
+      (∀ c ∈ k.props.v, ∃ c' ∈ (statusGC k man t).k.props.v, c'.key = c.key ∧ c'.dflt = c.dflt ∧
+          ∀ i j, i < k.nV → ρ i = some j → c'.vals[j]? = c.vals[i]?) ∧
+      (statusGC k man t).t.v =
+        t.v.map (fun h => if h < 0 then h else if h.toNat ≥ k.nV then h else Spec.optInt (ρ h.toNat)) := by
+  have q := markPhase_Q k man hi
+  have hfr' : Fresh (markPhase k man) := by unfold Fresh; rw [q.props]; exact hfr
+  obtain ⟨L, f⟩ := statusGC_tracking k man t hne q.len hfr' q.dfr
+  have kf := kind_facts L.v (markPhase k man).nV f.okV (markPhase k man).props.v q.len.pv t.v
+  rw [q.nV, q.props] at kf
+  refine ⟨fwdOps L.v, kf.1, ?_, ?_, ?_⟩
+  · intro j hj; rw [f.nV, q.nV] at hj; exact kf.2.1 j hj
+  · intro c hc
+    refine ⟨Col.runOps L.v c, ?_, rfl, rfl, kf.2.2.1 c hc⟩
+    rw [f.props, q.props]; exact List.mem_map.2 ⟨c, hc, rfl⟩
+  · rw [f.tv, f.newV, q.nV]; exact kf.2.2.2
+
+/-- **Cells.** -/
+theorem tracked_cell_handles (k : Kernel) (man : Bool) (t : Tracked) (hne : t.isEmpty = false)
+    (hi : LenInv k) (hfr : Fresh k) :
+    ∃ ρ : Nat → Option Nat,
+      (∀ i i' j, i < (markPhase k man).nC → i' < (markPhase k man).nC → ρ i = some j → ρ i' = some j → i = i') ∧
+      (∀ j, j < (statusGC k man t).k.nC → ∃ i, i < (markPhase k man).nC ∧ ρ i = some j) ∧
+      (∀ c ∈ k.props.c, ∃ c' ∈ (statusGC k man t).k.props.c, c'.key = c.key ∧ c'.dflt = c.dflt ∧
+          ∀ i j, i < (markPhase k man).nC → ρ i = some j → c'.vals[j]? = c.vals[i]?) ∧
+      (statusGC k man t).t.c =
+        t.c.map (fun h => if h < 0 then h else if h.toNat ≥ (markPhase k man).nC then h else Spec.optInt (ρ h.toNat)) := by
+  have q := markPhase_Q k man hi
+  have hfr' : Fresh (markPhase k man) := by unfold Fresh; rw [q.props]; exact hfr
+  obtain ⟨L, f⟩ := statusGC_tracking k man t hne q.len hfr' q.dfr
+  have kf := kind_facts L.c (markPhase k man).nC f.okC (markPhase k man).props.c q.len.pc t.c
+  rw [q.props] at kf
+  refine ⟨fwdOps L.c, kf.1, ?_, ?_, ?_⟩
+  · intro j hj; rw [f.nC] at hj; exact kf.2.1 j hj
+  · intro c hc
+    refine ⟨Col.runOps L.c c, ?_, rfl, rfl, kf.2.2.1 c hc⟩
+    rw [f.props, q.props]; exact List.mem_map.2 ⟨c, hc, rfl⟩
+  · rw [f.tc, f.newC]; exact kf.2.2.2
+
+/-- **Halfedges.**  The halfedge renumbering is the edge renumbering `ρ` with the side kept; every
+    edge column *and* every halfedge column is carried; tracked halfedge handles follow it. -/
+theorem tracked_halfedge_handles (k : Kernel) (man : Bool) (t : Tracked) (hne : t.isEmpty = false)
+    (hi : LenInv k) (hfr : Fresh k) :
+    ∃ (ρ : Nat → Option Nat) (ρh : Nat → Option Nat),
+      (∀ e s, s ≤ 1 → ρh (2 * e + s) = (ρ e).map (fun e' => 2 * e' + s)) ∧
+      (∀ i i' j, i < (markPhase k man).nE → i' < (markPhase k man).nE → ρ i = some j → ρ i' = some j → i = i') ∧
+      (∀ j, j < (statusGC k man t).k.nE → ∃ i, i < (markPhase k man).nE ∧ ρ i = some j) ∧
+      (∀ c ∈ k.props.e, ∃ c' ∈ (statusGC k man t).k.props.e, c'.key = c.key ∧ c'.dflt = c.dflt ∧
+          ∀ i j, i < (markPhase k man).nE → ρ i = some j → c'.vals[j]? = c.vals[i]?) ∧
+      (∀ c ∈ k.props.he, ∃ c' ∈ (statusGC k man t).k.props.he, c'.key = c.key ∧ c'.dflt = c.dflt ∧
+          ∀ i j, i < (markPhase k man).nHE → ρh i = some j → c'.vals[j]? = c.vals[i]?) ∧
+      (statusGC k man t).t.he =
+        t.he.map (fun h => if h < 0 then h else if h.toNat ≥ (markPhase k man).nHE then h else Spec.optInt (ρh h.toNat)) := by
+  have q := markPhase_Q k man hi
+  have hfr' : Fresh (markPhase k man) := by unfold Fresh; rw [q.props]; exact hfr
+  obtain ⟨L, f⟩ := statusGC_tracking k man t hne q.len hfr' q.dfr
+  have kf := kind_facts L.e (markPhase k man).nE f.okE (markPhase k man).props.e q.len.pe []
+  have okh := halfOps_ok L.e (markPhase k man).nE f.okE
+  have kh := kind_facts (halfOps L.e) (markPhase k man).nHE okh.1 (markPhase k man).props.he q.len.phe t.he
+  rw [q.props] at kf kh
+  refine ⟨fwdOps L.e, fwdOps (halfOps L.e), fun e s hs => halfOps_fwd L.e e s hs, kf.1, ?_, ?_, ?_, ?_⟩
+  · intro j hj; rw [f.nE] at hj; exact kf.2.1 j hj
+  · intro c hc
+    refine ⟨Col.runOps L.e c, ?_, rfl, rfl, kf.2.2.1 c hc⟩
+    rw [f.props, q.props]; exact List.mem_map.2 ⟨c, hc, rfl⟩
+  · intro c hc
+    refine ⟨Col.runOps (halfOps L.e) c, ?_, rfl, rfl, kh.2.2.1 c hc⟩
+    rw [f.props, q.props]; exact List.mem_map.2 ⟨c, hc, rfl⟩
+  · rw [f.the, f.newHE]; exact kh.2.2.2
+
+/-- **Halffaces.** -/
+theorem tracked_halfface_handles (k : Kernel) (man : Bool) (t : Tracked) (hne : t.isEmpty = false)
+    (hi : LenInv k) (hfr : Fresh k) :
+    ∃ (ρ : Nat → Option Nat) (ρh : Nat → Option Nat),
+      (∀ f s, s ≤ 1 → ρh (2 * f + s) = (ρ f).map (fun f' => 2 * f' + s)) ∧
+      (∀ i i' j, i < (markPhase k man).nF → i' < (markPhase k man).nF → ρ i = some j → ρ i' = some j → i = i') ∧
+      (∀ j, j < (statusGC k man t).k.nF → ∃ i, i < (markPhase k man).nF ∧ ρ i = some j) ∧
+      (∀ c ∈ k.props.f, ∃ c' ∈ (statusGC k man t).k.props.f, c'.key = c.key ∧ c'.dflt = c.dflt ∧
+          ∀ i j, i < (markPhase k man).nF → ρ i = some j → c'.vals[j]? = c.vals[i]?) ∧
+      (∀ c ∈ k.props.hf, ∃ c' ∈ (statusGC k man t).k.props.hf, c'.key = c.key ∧ c'.dflt = c.dflt ∧
+          ∀ i j, i < (markPhase k man).nHF → ρh i = some j → c'.vals[j]? = c.vals[i]?) ∧
+      (statusGC k man t).t.hf =
+        t.hf.map (fun h => if h < 0 then h else if h.toNat ≥ (markPhase k man).nHF then h else Spec.optInt (ρh h.toNat)) := by
+  have q := markPhase_Q k man hi
+  have hfr' : Fresh (markPhase k man) := by unfold Fresh; rw [q.props]; exact hfr
+  obtain ⟨L, f⟩ := statusGC_tracking k man t hne q.len hfr' q.dfr
+  have kf := kind_facts L.f (markPhase k man).nF f.okF (markPhase k man).props.f q.len.pf []
+  have okh := halfOps_ok L.f (markPhase k man).nF f.okF
+  have kh := kind_facts (halfOps L.f) (markPhase k man).nHF okh.1 (markPhase k man).props.hf q.len.phf t.hf
+  rw [q.props] at kf kh
+  refine ⟨fwdOps L.f, fwdOps (halfOps L.f), fun e s hs => halfOps_fwd L.f e s hs, kf.1, ?_, ?_, ?_, ?_⟩
+  · intro j hj; rw [f.nF] at hj; exact kf.2.1 j hj
+  · intro c hc
+    refine ⟨Col.runOps L.f c, ?_, rfl, rfl, kf.2.2.1 c hc⟩
+    rw [f.props, q.props]; exact List.mem_map.2 ⟨c, hc, rfl⟩
+  · intro c hc
+    refine ⟨Col.runOps (halfOps L.f) c, ?_, rfl, rfl, kh.2.2.1 c hc⟩
+    rw [f.props, q.props]; exact List.mem_map.2 ⟨c, hc, rfl⟩
+  · rw [f.thf, f.newHF]; exact kh.2.2.2
+
+/-- nothing is pending after the call, whatever the deferred flag was -/
+theorem nothing_pending_after_statusGC (k : Kernel) (man : Bool) (t : Tracked) (hne : t.isEmpty = false)
+    (hi : LenInv k) (hfr : Fresh k) : (statusGC k man t).k.needsGC = false := by
+  have q := markPhase_Q k man hi
+  have hfr' : Fresh (markPhase k man) := by unfold Fresh; rw [q.props]; exact hfr
+  obtain ⟨L, f⟩ := statusGC_tracking k man t hne q.len hfr' q.dfr
+  exact f.clean
+
+/-! ### non-vacuity: a concrete state satisfying the hypotheses, both flags -/
+
+/-- three vertices, the edge (0,2), vertex 1 marked; identity tokens 7 8 9 / 5 -/
+def exK : Kernel :=
+  { nV := 3, vDel := [false, false, false], edges := [(0, 2)], eDel := [false],
+    vBU := false, eBU := false, fBU := false, deferred := false, fast := true,
+    props := { v := [{ key := "idv", dflt := 0, vals := [7, 8, 9] }, { key := "vertex_status", dflt := 0, vals := [0, 1, 4] }],
+               e := [{ key := "ide", dflt := 0, vals := [5] }],
+               he := [{ key := "w", dflt := 0, vals := [50, 51] }] } }
+
+example : LenInv exK ∧ Fresh exK := by
+  refine ⟨?_, ?_⟩
+  · constructor <;> simp [exK, nE, nF, nC, nHE, nHF, ColsLen]
+  · simp [Fresh, exK, tmpV, tmpHE, tmpHF, tmpC]
+
+/-- fast deletion: the last vertex is swapped into the hole; the tracked handles follow, the
+    marked vertex and the invalid handle come back invalid; tokens and status bits travel along -/
+example :
+    let r := statusGC exK false { v := [0, 1, 2, -1, 2], he := [1] }
+    r.t.v = [0, -1, 1, -1, 1] ∧ r.t.he = [1] ∧ r.k.nV = 2 ∧ r.k.edges = [(0, 1)] ∧ r.k.needsGC = false ∧
+    r.k.deferred = false ∧ r.k.fault = false ∧
+    r.k.props.v = [{ key := "idv", dflt := 0, vals := [7, 9] }, { key := "vertex_status", dflt := 0, vals := [0, 4] }] ∧
+    r.newV = [some 0, none, some 1] := by decide +kernel
+
+/-- the manifoldness option: nothing bounds a cell here, so everything goes (and all incidence kinds
+    are switched on) -/
+example :
+    let r := statusGC exK true { v := [0], he := [0] }
+    r.t.v = [-1] ∧ r.t.he = [-1] ∧ r.k.nV = 0 ∧ r.k.edges = [] ∧ r.k.vBU = true ∧ r.k.eBU = true ∧ r.k.fBU = true := by
+  decide +kernel
+
+/-- the specification holds of the model's result on this state (what the judge evaluates per call) -/
+example :
+    let t : Tracked := { v := [0, 1, 2, -1, 2], he := [1] }
+    let r := statusGC exK false t
+    Holds exK (marksOf exK) false t r.k r.t
+      { v := r.newV, e := [r.newHE.getD 0 none |>.map (· / 2)], f := [], c := [] } := by decide +kernel
+
+/-! ### the specification's clauses (`OVM/Status/Spec.lean`) -/
+
+/-- upward closure: a removed vertex removes its edges, a removed edge its faces, a removed face
+    its cells -/
+theorem dead_is_upward_closed (k : Kernel) (mk : Marks) :
+    (∀ e v, Spec.vertInEdge k e v = true → Spec.deadV k mk v = true → Spec.deadE k mk e = true) ∧
+    (∀ f e, Spec.edgeInFace k f e = true → Spec.deadE k mk e = true → Spec.deadF k mk f = true) ∧
+    (∀ c f, Spec.faceInCell k c f = true → Spec.deadF k mk f = true → Spec.deadC k mk c = true) := by
+  refine ⟨?_, ?_, ?_⟩
+  · intro e v hin hd
+    simp only [Spec.vertInEdge, Bool.or_eq_true, beq_iff_eq] at hin
+    unfold Spec.deadE
+    rcases hin with h | h <;> simp [h, hd]
+  · intro f e hin hd
+    simp only [Spec.edgeInFace, List.any_eq_true, beq_iff_eq] at hin
+    obtain ⟨h, hh, he⟩ := hin
+    unfold Spec.deadF
+    simp only [Bool.or_eq_true, List.any_eq_true]
+    exact Or.inr ⟨h, hh, by rw [he]; exact hd⟩
+  · intro c f hin hd
+    simp only [Spec.faceInCell, List.any_eq_true, beq_iff_eq] at hin
+    obtain ⟨h, hh, he⟩ := hin
+    unfold Spec.deadC
+    simp only [Bool.or_eq_true, List.any_eq_true]
+    exact Or.inr ⟨h, hh, by rw [he]; exact hd⟩
+
+/-- with the option, *exactly* the not-removed faces / edges / vertices that bound a surviving
+    cell / face / edge survive; without it, exactly the not-removed ones -/
+theorem manifold_clause_exact (k : Kernel) (mk : Marks) :
+    (∀ f, Spec.keepF k mk true f = true ↔
+        (Spec.keepF k mk false f = true ∧ ∃ c, c < k.nC ∧ Spec.keepC k mk c = true ∧ Spec.faceInCell k c f = true)) ∧
+    (∀ e, Spec.keepE k mk true e = true ↔
+        (Spec.keepE k mk false e = true ∧ ∃ f, f < k.nF ∧ Spec.keepF k mk true f = true ∧ Spec.edgeInFace k f e = true)) ∧
+    (∀ v, Spec.keepV k mk true v = true ↔
+        (Spec.keepV k mk false v = true ∧ ∃ e, e < k.nE ∧ Spec.keepE k mk true e = true ∧ Spec.vertInEdge k e v = true)) := by
+  refine ⟨?_, ?_, ?_⟩
+  · intro f
+    simp only [Spec.keepF, Bool.and_eq_true, Bool.not_true, Bool.false_or, Bool.not_false, Bool.true_or,
+      List.any_eq_true, List.mem_range, and_true, decide_eq_true_eq]
+  · intro e
+    simp only [Spec.keepE, Bool.and_eq_true, Bool.not_true, Bool.false_or, Bool.not_false, Bool.true_or,
+      List.any_eq_true, List.mem_range, and_true, decide_eq_true_eq]
+  · intro v
+    simp only [Spec.keepV, Bool.and_eq_true, Bool.not_true, Bool.false_or, Bool.not_false, Bool.true_or,
+      List.any_eq_true, List.mem_range, and_true, decide_eq_true_eq]
+
+/-- the survivors form a sub-mesh: a surviving cell keeps all its faces, a surviving face all its
+    edges, a surviving edge both its vertices (for definitions whose handles are in range) -/
+theorem survivors_are_closed_downward (k : Kernel) (mk : Marks) (man : Bool) :
+    (∀ c f, Spec.keepC k mk c = true → Spec.faceInCell k c f = true → f < k.nF → Spec.keepF k mk man f = true) ∧
+    (∀ f e, Spec.keepF k mk man f = true → Spec.edgeInFace k f e = true → e < k.nE → Spec.keepE k mk man e = true) ∧
+    (∀ e v, Spec.keepE k mk man e = true → Spec.vertInEdge k e v = true → v < k.nV → Spec.keepV k mk man v = true) := by
+  have up := dead_is_upward_closed k mk
+  refine ⟨?_, ?_, ?_⟩
+  · intro c f hc hin hf
+    have hc' := hc
+    simp only [Spec.keepC, Bool.and_eq_true, decide_eq_true_eq, Bool.not_eq_true'] at hc
+    have nd : Spec.deadF k mk f = false := by
+      cases h : Spec.deadF k mk f
+      · rfl
+      · rw [up.2.2 c f hin h] at hc; exact absurd hc.2 (by simp)
+    simp only [Spec.keepF, Bool.and_eq_true, decide_eq_true_eq, nd, Bool.not_false, true_and, hf, Bool.or_eq_true,
+      Bool.not_eq_true', List.any_eq_true, List.mem_range]
+    exact Or.inr ⟨c, hc.1, by rw [hc']; simpa using hin⟩
+  · intro f e hk hin he
+    have hk' := hk
+    simp only [Spec.keepF, Bool.and_eq_true, decide_eq_true_eq, Bool.not_eq_true'] at hk
+    have nd : Spec.deadE k mk e = false := by
+      cases h : Spec.deadE k mk e
+      · rfl
+      · rw [up.2.1 f e hin h] at hk; exact absurd hk.1.2 (by simp)
+    simp only [Spec.keepE, Bool.and_eq_true, decide_eq_true_eq, nd, Bool.not_false, true_and, he, Bool.or_eq_true,
+      Bool.not_eq_true', List.any_eq_true, List.mem_range]
+    exact Or.inr ⟨f, hk.1.1, by rw [hk']; simpa using hin⟩
+  · intro e v hk hin hv
+    have hk' := hk
+    simp only [Spec.keepE, Bool.and_eq_true, decide_eq_true_eq, Bool.not_eq_true'] at hk
+    have nd : Spec.deadV k mk v = false := by
+      cases h : Spec.deadV k mk v
+      · rfl
+      · rw [up.1 e v hin h] at hk; exact absurd hk.1.2 (by simp)
+    simp only [Spec.keepV, Bool.and_eq_true, decide_eq_true_eq, nd, Bool.not_false, true_and, hv, Bool.or_eq_true,
+      Bool.not_eq_true', List.any_eq_true, List.mem_range]
+    exact Or.inr ⟨e, hk.1.1, by rw [hk']; simpa using hin⟩
+
+/-- What remains for the full property on the model (evaluated on every call of the correspondence
+    run by the judge, `STAT dyn_model_spec_evaluated`, not proved): the model's result satisfies the
+    specification with the renumbering it computed itself, for every state whose array lengths and
+    incidence caches are consistent (and whose definitions only mention existing handles). -/
+def FullStatement : Prop :=
+  ∀ (k : Kernel) (man : Bool) (t : Tracked), LenInv k → CacheInv k → Fresh k → t.isEmpty = false →
+    let r := statusGC k man t
+    Holds k (marksOf k) man t r.k r.t
+      { v := r.newV, e := (List.range k.nE).map (fun e => (r.newHE.getD (2 * e) none).map (· / 2)),
+        f := (List.range k.nF).map (fun f => (r.newHF.getD (2 * f) none).map (· / 2)), c := r.newC }
 
 end OVM.Props.C04Status
